@@ -53,7 +53,14 @@ func (c *EvalCtx) evalCall(x *SCall) (TV, error) {
 		if c.old == nil {
 			return TV{}, fmt.Errorf("old() used where there is no pre-state")
 		}
-		oc := c.inState(c.old)
+		eff := c.old
+		if len(c.st.oldOv) > 0 {
+			eff = c.old.clone()
+			for k, v := range c.st.oldOv {
+				eff.heaps[k] = v
+			}
+		}
+		oc := c.inState(eff)
 		return oc.eval(x.Args[0])
 	case "len", "cap":
 		v, err := c.eval(x.Args[0])
@@ -308,6 +315,16 @@ func (c *EvalCtx) evalCall(x *SCall) (TV, error) {
 			return TV{}, fmt.Errorf("atentry() used outside a loop invariant")
 		}
 		return c.inState(c.loopPre).eval(x.Args[0])
+	case "strval":
+		// string(b) for a byte slice, evaluated in the current state
+		v, err := c.eval(x.Args[0])
+		if err != nil {
+			return TV{}, err
+		}
+		if v.S != SSlice {
+			return TV{}, fmt.Errorf("strval() needs a byte slice")
+		}
+		return TV{Val: c.e.bytesToString(c.st, v.Val), Ty: types.Typ[types.String]}, nil
 	case "heap8":
 		_, h := c.e.scalarHeap(c.st, BVSort(8))
 		return TV{Val: h}, nil
